@@ -235,6 +235,7 @@ class GuardScan:
                 else f_or(rt, re_)
         if k in ('For', 'While', 'Do', 'RangeFor'):
             n0 = len(self.sites)
+            nr = len(self.returns)
             if s['k'] == 'For' and s.get('init'):
                 self.scan(s['init'], reach, loops)
             nu = len(self.uses)
@@ -243,7 +244,14 @@ class GuardScan:
                 u[1] = f_and(reach, ('loop', s, u[1]))
             for st in self.sites[n0:]:
                 st.reach = f_and(reach, ('loop', s, st.reach)) if st.reach[0] != 'loop' else f_and(reach, st.reach)
-            return reach
+            left = FALSE
+            for i_ in range(nr, len(self.returns)):
+                r_, rr = self.returns[i_]
+                lf = ('loop', s, rr) if rr[0] != 'loop' else rr
+                self.returns[i_] = (r_, f_and(reach, lf))
+                left = f_or(left, lf)
+            # control continues after the loop only if no iteration returned
+            return f_and(reach, f_not(left)) if left != FALSE else reach
         if k == 'Return':
             self.returns.append((s, reach))
             return FALSE
@@ -725,3 +733,60 @@ def stmt_index_path(body, target_pred):
             rec(c, path + [s])
     rec(body, [])
     return res
+
+
+# ----------------------------------------------------------------------------- finite-table evaluation of an index prologue
+
+class RowExec:
+    """Evaluates the integer prologue of a small function on one row of a finite table (C semantics): the statements
+    understood are if/else, assignments to integer parameters/locals, declarations, return and process exit.  It stops at
+    the first statement for which `stop(stmt)` is true and hands the current row (with reassigned variables) back.
+    Used for clamp logic such as Sub_List, where the guard is a sequence of reassignments rather than one predicate."""
+
+    def __init__(self, prog, fn, row, stop):
+        self.prog = prog
+        self.fn = fn
+        self.row = dict(row)
+        self.stop = stop
+        self.tk = TermKey(prog)
+
+    def run(self):
+        return self.block(self.fn.body)
+
+    def block(self, s):
+        k = s['k']
+        if self.stop(s):
+            return ('stop', s)
+        if k == 'Compound':
+            for x in s['body']:
+                r = self.block(x)
+                if r is not None:
+                    return r
+            return None
+        if k == 'If':
+            c = CEval(self.prog, self.row).ev(s['cond'])
+            if c:
+                return self.block(s['then'])
+            if s.get('else'):
+                return self.block(s['else'])
+            return None
+        if k == 'Expr':
+            e = strip(s['e'])
+            if is_noreturn_call(e):
+                return ('exit', s)
+            if e.get('k') == 'Bin' and e['op'] == '=' and strip(e['lhs']).get('k') == 'Ref':
+                key = self.tk.key(e['lhs'])
+                v = CEval(self.prog, self.row).ev(e['rhs'])
+                self.row[key] = wrap(v, strip(e['lhs']).get('ty'))
+                return None
+            raise Undecided('prologue statement: ' + show(e))
+        if k == 'Decl':
+            for d in s['decls']:
+                if d.get('init') is not None and d['ty'] in ('int', 'unsigned int', 'unsigned long', 'long', 'bool', 'double'):
+                    self.row[d['name']] = wrap(CEval(self.prog, self.row).ev(d['init']), d['ty'])
+                elif d.get('init') is not None:
+                    raise Undecided('declaration of %s in prologue' % d['name'])
+            return None
+        if k == 'Return':
+            return ('return', s)
+        raise Undecided('statement kind %s in prologue' % k)
